@@ -180,8 +180,8 @@ class Walker:
 
     def expr(self, e, file):
         self.size += 1
-        if self.size > 200000:
-            raise common.InfraError("inlined expression tree too large")
+        if self.size > 60000:
+            raise Unmodelled("too-large: inlined expression tree")
         l = self.loc(file, e)
         if "constant" in e:
             return "n " + l
@@ -388,7 +388,10 @@ def real_outcome(files, main="m.emb"):
         if cls is None:
             unknown.append(first.message.split("\n")[0])
     if unknown:
-        return {"kind": "other", "groups": groups, "unknown": unknown}
+        # rejected by a check that is not C13's: before or after the typing passes?
+        _ir, e2, x2 = emb.compile_text(files, main=main, stop_before_step="annotate_types")
+        return {"kind": "other", "groups": groups, "unknown": unknown,
+                "late": x2 is None and not e2}
     passes = set(pass_of(g["cls"]) for g in groups)
     p = 9 if all(g["syn"] for g in groups) else (min(passes) if len(passes) == 1 else -1)
     return {"kind": "rejected", "pass": p, "groups": groups}
@@ -425,8 +428,8 @@ def model_input(files, main="m.emb"):
         return None, "early-exception"
     if errors or ir is None:
         return None, "early-reject"
-    w = Walker(emb.ir_to_dict(ir))
     try:
+        w = Walker(emb.ir_to_dict(ir))
         return w.module_line(), w
     except Unmodelled as e:
         return None, "unmodelled: %s" % e
@@ -452,7 +455,13 @@ def oracle(case, out):
             return "well-typed module rejected: %s" % [(g["loc"], g["msg"]) for g in out["groups"]][:3], key
         return None            # accepted, or rejected by a check outside C13 ('other')
     # expect reject
-    if out["kind"] == "accepted":
+    groups = out.get("groups", [])
+    good = [g for g in groups if not g["syn"] and g["file"] == "m.emb"
+            and g["loc"].split(":")[0] == str(case["line"])]
+    if out["kind"] == "other" and not good and not out.get("late"):
+        return None     # stopped by an earlier, unrelated check: says nothing about typing
+    if out["kind"] == "accepted" or (out["kind"] == "other" and not good):
+        # accepted outright, or let through by the typing passes (a later, unrelated check objected elsewhere)
         key = None
         rule = case.get("rule", "")
         if rule.startswith("comparison:") and rule.endswith(":enum-enum"):
@@ -461,10 +470,7 @@ def oracle(case, out):
             key = K_ENUM_VALUE
         elif rule == "parameter:pass-other-enum":
             key = K_PASS_ENUM
-        return "module breaking rule %s on line %d was accepted" % (rule, case["line"]), key
-    groups = out.get("groups", [])
-    good = [g for g in groups if not g["syn"] and g["file"] == "m.emb"
-            and g["loc"].split(":")[0] == str(case["line"])]
+        return "module breaking rule %s on line %d was accepted by the typing passes" % (rule, case["line"]), key
     if not good:
         return ("rule %s broken on line %d but no non-synthetic error is located on that line: %s" % (
             case.get("rule"), case["line"], [(g["loc"], g["msg"]) for g in groups][:4])), None
